@@ -230,6 +230,14 @@ class Explorer:
         cov['max_choice_points_in_one_execution'] = tot['max_cp']
         return tot
 
+INV_NAMES = {1: 'work_units above the worker count', 2: 'in_slots above the total', 4: 'out_slots above the total (or taken below zero)',
+             8: 'live heap above the bound', 16: 'slot totals above the documented per-worker constants', 256: 'heap block overrun (write behind an allocation)',
+             512: 'data race', 1024: 'heap blocks never released at successful exit'}
+
+def inv_text(inv, note=''):
+    names = [n for b, n in INV_NAMES.items() if inv & b]
+    return '%s (flags %d)%s' % ('; '.join(names) or 'invariant', inv, (': ' + note) if note else '')
+
 def expect_exact(status, out_bytes, stderr_empty=True, allow_inv=0):
     """Oracle: exactly this exit status and these stdout bytes.
     allow_inv: bit mask of counter-invariant flags that do not apply (copy mode
@@ -245,8 +253,8 @@ def expect_exact(status, out_bytes, stderr_empty=True, allow_inv=0):
             return 'ended by %s(%s) instead of exit status %d' % (c['kind'], c['code'], status)
         if c['code'] != status:
             return 'exit status %d instead of %d' % (c['code'], status)
-        if c['inv'] & ~int(allow_inv) & ~64:
-            return 'scheduler counter invariant broken (flags %d)' % c['inv']
+        if c['inv'] & ~int(allow_inv) & ~(64 | 32 | 128):
+            return 'invariant broken: ' + inv_text(c['inv'] & ~int(allow_inv) & ~(64 | 32 | 128), c.get('note', ''))
         if h is not None and (c['stdout_hash'] != h or c['stdout_len'] != n):
             return 'output differs from the expected %d bytes' % n
         if stderr_empty and c['stderr_len']:
